@@ -20,8 +20,10 @@ def r1(R, repo):
   for rel in (LA, NA):
     f = repo.func(rel, 'dot_product_attention_weights')
     c = cfg_of(f)
-    tb = [n for n in c.nodes if n.kind == 'if' and astu.src(n.ast) == 'bias is not None']
-    tm = [n for n in c.nodes if n.kind == 'if' and astu.src(n.ast) == 'mask is not None']
+    _none = lambda v, neg: (lambda e: isinstance(e, ast.Compare) and len(e.ops) == 1 and isinstance(e.ops[0], ast.IsNot if neg else ast.Is) and astu.src(e.left) == v and astu.is_const(e.comparators[0], None))
+    given = lambda v, n_: evid.guarded(c, n_, _none(v, True)) == 'yes' or evid.guarded(c, n_, _none(v, False), negative=True) == 'yes'
+    tb = [n for n in c.nodes if n.kind == 'if' and (evid.mentions(n.ast, _none('bias', True)) or evid.mentions(n.ast, _none('bias', False)))]
+    tm = [n for n in c.nodes if n.kind == 'if' and (evid.mentions(n.ast, _none('mask', True)) or evid.mentions(n.ast, _none('mask', False)))]
     add = [n for n in c.nodes if isinstance(n.stmt, ast.Assign) and astu.src(n.stmt) == 'attn_weights = attn_weights + bias']
     where = [n for n in c.nodes if isinstance(n.stmt, ast.Assign) and astu.src(n.stmt.targets[0]) == 'attn_weights' and isinstance(n.stmt.value, ast.Call) and astu.call_tail(n.stmt.value) == 'where']
     soft = [n for n in c.nodes if isinstance(n.stmt, ast.Assign) and astu.src(n.stmt.targets[0]) == 'attn_weights' and 'softmax' in astu.src(n.stmt.value)]
@@ -35,15 +37,13 @@ def r1(R, repo):
       continue
     w = where[0]
     args = [astu.src(a) for a in w.stmt.value.args]
-    ok = args[:2] == ['mask', 'attn_weights'] and c.edge_guarded(w, tm[0], 'T') and all(c.dominated(s, tm) for s in soft) and all(s in c.reach([w]) for s in soft) and not any(w in c.reach([s]) for s in soft)
+    ok = args[:2] == ['mask', 'attn_weights'] and given('mask', w) and all(c.dominated(s, tm) for s in soft) and all(s in c.reach([w]) for s in soft) and not any(w in c.reach([s]) for s in soft)
     R.check(ok, key_of(f, 'where(mask, logits, big_neg) before softmax'), f, evidence=len(args) >= 2 and sorted(args[:2]) == ['attn_weights', 'mask'], msg_fail= 'when a mask is given the logits must pass through where(mask, attn_weights, <most negative value>) before the softmax')
     fill = types.single_def(f.node, args[2]) if len(args) > 2 and args[2].isidentifier() else None
     R.check(fill is not None and 'finfo' in astu.src(fill) and astu.src(fill).endswith('.min'), key_of(f, 'masked logits = finfo(dtype).min'), f, 'masked positions must be filled with the most negative finite value of the dtype')
     # the mask must be applied whether or not a bias is given, and after the bias
-    cut_bias_false = [(tb[0], m, l) for m, l in c.succ[tb[0]] if l != 'T']
-    cut_mask_false = [(tm[0], m, l) for m, l in c.succ[tm[0]] if l != 'T']
-    with_both = c.reach([c.entry], avoid_edges=cut_bias_false + cut_mask_false)
-    ok = w in with_both and w in c.reach(add) and add[0] not in c.reach([w])
+    may_b, must_b = evid.reach_env(c, {'bias is not None': True, 'bias is None': False, 'mask is not None': True, 'mask is None': False})
+    ok = w in may_b and w in c.reach(add) and add[0] not in c.reach([w])
     R.check(ok, key_of(f, 'mask applied also when a bias is given, after the bias'), (f, w.stmt), evidence=True, msg_fail=
             'with both `bias` and `mask` given the mask must still be applied (after the bias addition): an `elif mask` skips it, so masked / future positions receive weight')
     rescale = [n for n in c.nodes if isinstance(n.stmt, (ast.Assign, ast.AugAssign)) and astu.src(n.stmt.targets[0] if isinstance(n.stmt, ast.Assign) else n.stmt.target) == 'attn_weights' and
